@@ -670,6 +670,40 @@ pub fn exhaustive_mutations(spec: &TokSpec, stride: usize) -> Vec<Mut> {
   v
 }
 
+/// pairs (and a few quadruples) of bit flips whose per-byte differences cancel under addition or parity
+pub fn cancelling_pairs(spec: &TokSpec, bits: &[u32]) -> Vec<Mut> {
+  let t = match spec.token() {
+    Ok(t) => t,
+    Err(_) => return vec![],
+  };
+  let (_, pseg, _) = split_token(&t).expect("well-formed");
+  let n = unb64(&pseg).expect("payload").len() as u32;
+  let mut v = vec![];
+  let mut regions = vec![(n.saturating_sub(48), n)];
+  if n > 96 {
+    regions.push((0, 32));
+  }
+  for (lo, hi) in regions {
+    for &b in bits {
+      for i in lo..hi {
+        for j in i + 1..hi {
+          v.push(Mut::Multi(vec![Mut::FlipBit(8 * i + b), Mut::FlipBit(8 * j + b)]));
+        }
+      }
+    }
+    for i in lo..hi.saturating_sub(1) {
+      // 0x01 against 0xff (sum 0x100), and 0x80 against 0x80 is covered above
+      let mut m = vec![Mut::FlipBit(8 * i)];
+      m.extend((0..8).map(|k| Mut::FlipBit(8 * (i + 1) + k)));
+      v.push(Mut::Multi(m));
+    }
+    for i in lo..hi.saturating_sub(3) {
+      v.push(Mut::Multi((0..4).map(|k| Mut::FlipBit(8 * (i + k) + 6)).collect()));
+    }
+  }
+  v
+}
+
 fn simple_mut() -> BoxedStrategy<Mut> {
   prop_oneof![
     4 => (0u32..4000).prop_map(Mut::FlipBit),
@@ -941,6 +975,16 @@ pub fn run(ctx: &Ctx) -> EvidenceMeta {
         ctx.enumerate(s, muts.into_iter().map(|m| TamperCase { tok: spec.clone(), m }), false);
       }));
     }
+  }
+  // cancelling edits: the same bit flipped in two bytes of the authenticator (and of the leading 32 bytes), one bit against all
+  // eight of a neighbour, 0x40 in four bytes - differences that vanish in a comparison which adds, counts or folds per-byte
+  // differences instead of OR-ing them. Every pair inside the trailing 48 bytes (tag / signature tail) of one authentic token.
+  for s in subs.iter().filter(|s| s.kind == "exhaustive") {
+    jobs.push(Box::new(move || {
+      let spec = fixed_spec(s.proto, s.layer, 1);
+      let muts = cancelling_pairs(&spec, if s.proto.cost() > 4 { &[7] } else { &[7, 6, 0] });
+      ctx.enumerate(s, muts.into_iter().map(|m| TamperCase { tok: spec.clone(), m }), false);
+    }));
   }
   let bs = &BoundaryShift;
   let n_shift = ctx.n(3000, 40_000);
